@@ -96,8 +96,10 @@ type VerifHarness struct {
 	mu     sync.Mutex
 	// Deferred goroutine bodies (when a GoHook defers them).
 	Deferred []func()
-	psid     string
-	psdir    string
+	// RetryWait is mrp's --retry-wait (default one second).
+	RetryWait time.Duration
+	psid      string
+	psdir     string
 	mroPaths []string
 	src      string
 	srcPath  string
@@ -118,7 +120,7 @@ func VerifQuiet() {
 }
 
 func NewVerifHarness(opts VerifOptions) (*VerifHarness, error) {
-	h := &VerifHarness{Opts: opts, seen: map[string]int{}}
+	h := &VerifHarness{Opts: opts, seen: map[string]int{}, RetryWait: time.Second}
 	rtOpts := DefaultRuntimeOptions()
 	if opts.VdrMode != "" {
 		rtOpts.VdrMode = VdrMode(opts.VdrMode)
@@ -254,7 +256,7 @@ func (h *VerifHarness) RetryRestart() (bool, error) {
 	h.Ps.Unlock()
 	// mrp sleeps --retry-wait (default one second) before it restarts; the
 	// clock of files rewritten with "time=" moves on by as much
-	vshim.ClockOffset += time.Second
+	vshim.ClockOffset += h.RetryWait
 	ps, err := h.Rt.ReattachToPipestance(h.psid, h.psdir, h.src, h.srcPath, h.mroPaths,
 		"verif", nil, true, false, ctx)
 	if err != nil {
